@@ -662,6 +662,22 @@ func (a *analysis) analyse(fd *ast.FuncDecl) {
 								f.gain |= s.exprTaint(arg)
 							}
 						} else if callee, _ := typeutil.Callee(a.info, c).(*types.Func); callee != nil {
+							if _, isCopy := copySemantics(callee.Name()); isCopy && len(c.Args) > 0 {
+								// A method that panics on overlap and hands an
+								// operand on to one of the copy methods (which do
+								// not check) must have guarded it: the copy
+								// methods move elements in one direction only.
+								var t uint32
+								for _, arg := range c.Args {
+									t |= s.exprTaint(arg)
+								}
+								if t != 0 {
+									f.write, f.kernel = true, true
+									f.reads |= t
+									f.desc = "call " + types.ExprString(c.Fun)
+									res.Count("delegations_to_copy_methods", 1)
+								}
+							}
 							if cs := a.sums[callee]; cs != nil {
 								var delegated uint32
 								for k, arg := range c.Args {
@@ -724,36 +740,37 @@ func (a *analysis) analyse(fd *ast.FuncDecl) {
 		if c == nil {
 			return 0
 		}
-		var out uint32
 		// holds(e, want): facts implied when e evaluates to want
-		var holds func(e ast.Expr, want bool)
-		holds = func(e ast.Expr, want bool) {
+		var holds func(e ast.Expr, want bool) uint32
+		holds = func(e ast.Expr, want bool) uint32 {
 			switch x := e.(type) {
 			case *ast.Ident:
 				// `x, ok := operand.(T)`: when the assertion fails the
 				// operand's storage cannot be inspected by this arm, so an
 				// overlap check is impossible there (vacuous guard).
 				if src, isOK := s.assertOK[core.ObjOf(a.info, x)]; isOK && !want {
-					out |= s.exprTaint(src)
+					return s.exprTaint(src)
 				}
 			case *ast.ParenExpr:
-				holds(x.X, want)
+				return holds(x.X, want)
 			case *ast.UnaryExpr:
 				if x.Op == token.NOT {
-					holds(x.X, !want)
+					return holds(x.X, !want)
 				}
 			case *ast.BinaryExpr:
 				switch x.Op {
 				case token.LAND:
 					if want {
-						holds(x.X, true)
-						holds(x.Y, true)
+						return holds(x.X, true) | holds(x.Y, true)
 					}
+					// !(p && q): p failed, or p held and q failed
+					return holds(x.X, false) & (holds(x.X, true) | holds(x.Y, false))
 				case token.LOR:
 					if !want {
-						holds(x.X, false)
-						holds(x.Y, false)
+						return holds(x.X, false) | holds(x.Y, false)
 					}
+					// p || q: p held, or p failed and q held
+					return holds(x.X, true) & (holds(x.X, false) | holds(x.Y, true))
 				case token.EQL, token.NEQ:
 					equal := (x.Op == token.EQL) == want
 					var other ast.Expr
@@ -764,9 +781,9 @@ func (a *analysis) analyse(fd *ast.FuncDecl) {
 					}
 					if other != nil {
 						if equal {
-							out |= s.exprTaint(other)
+							return s.exprTaint(other)
 						}
-						return
+						return 0
 					}
 					isRestore := func(e ast.Expr) bool {
 						id, ok := e.(*ast.Ident)
@@ -778,14 +795,14 @@ func (a *analysis) analyse(fd *ast.FuncDecl) {
 					}
 					if (isRestore(x.X) && isNil(x.Y)) || (isRestore(x.Y) && isNil(x.X)) {
 						if !equal {
-							out |= all
+							return all
 						}
 					}
 				}
 			}
+			return 0
 		}
-		holds(c, succIdx == 0)
-		return out
+		return holds(c, succIdx == 0)
 	}
 
 	// forward must analysis
